@@ -168,6 +168,10 @@ def run(chk):
                 chk.add(Finding("R09-compare", "R09-compare::%s::%s" % (nsc, path), "%s decides which %s elements of the merged-in module are identical to the destination's before %s has rewritten their reference %s (-> %s): an element that refers to a renamed target is compared with its old reference text" % (fc, nsc, fr, path, ns), bc.where(evc[4])))
     chk.rule("R09-compare", "(comparison of a namespace's elements, rewrite of a reference inside those elements under another namespace's table) pairs: rewrite first", ncmp, floor=20)
 
+    # references are resolved and compared through ItemList: its equality and its name index are part of this property's code
+    from . import c08, c13
+    c08.r08_listeq(chk, prog, rule="R09-listeq")
+    c13.shared(chk, "R09-list", "merge looks up and compares elements of both modules through ItemList")
     # control dependence of the rewrites
     nctrl = 0
     A = mf.A
